@@ -181,6 +181,49 @@ def crowded_collections():
     return out
 
 
+def huge_collections(thorough):
+    """Thousands of boxes, lopsided enough that a *child* node holds well over a thousand: work
+    done on a sample of a large node (every n-th box), tables sized for "reasonable" nodes."""
+    out = []
+    for n_cluster, n_rest in ((1300, 1100),) + (((2700, 900),) if thorough else ()):
+        cluster = [(k, (500 + (k * 37) % 101 + (k % 3) / 4, 500 + (k * 53) % 103 + (k % 5) / 8,
+                        500 + (k * 37) % 101 + 1 + (k % 7) / 2, 500 + (k * 53) % 103 + 1 + (k % 4)))
+                   for k in range(n_cluster)]
+        rest = [(10000 + k, ((k * 29) % 400, (k * 71) % 397, (k * 29) % 400 + 2, (k * 71) % 397 + 3))
+                for k in range(n_rest)]
+        out.append(("cluster", cluster + rest, n_cluster))
+    # a second layout: short strokes (zero-height / zero-width boxes) crowded into the south-west
+    strokes = [(k, ((k * 41) % 97 / 2, (k * 59) % 89 / 2, (k * 41) % 97 / 2 + (k % 2) * (1 + k % 3),
+                    (k * 59) % 89 / 2 + (1 - k % 2) * (1 + k % 4))) for k in range(1400)]
+    far = [(9000 + k, (200 + (k * 31) % 300, 200 + (k * 67) % 290, 203 + (k * 31) % 300,
+                       201 + (k * 67) % 290)) for k in range(1000)]
+    out.append(("strokes", strokes + far, 1400))
+    return out
+
+
+def _huge_chunk(items):
+    part = core.Part()
+    for name, boxes, n_probe in items:
+        queries = []
+        for _i, (x_a, y_a, x_b, y_b) in boxes[:n_probe]:
+            queries += [(x_a, y_a, x_a, y_a), (x_b, y_b, x_b, y_b), (x_a, y_b, x_a, y_b),
+                        (x_b, y_a, x_b, y_a)]
+        bad, depth = check_collection(boxes, queries)
+        part.count("collections")
+        part.count("huge_collections")
+        part.count("queries", 2 * len(queries))
+        part.count("nontrivial")
+        part.counters["max_depth"] = max(part.counters.get("max_depth", 0), depth)
+        for clause, msg, query, asked in bad[:5]:
+            part.violation(f"{clause}:huge:{name}:{len(boxes)}:{query}",
+                           msg.replace(repr(boxes), f"<{len(boxes)} boxes ({name}), first "
+                                                    f"{boxes[0]}, last {boxes[-1]}>")[:700],
+                           {"kind": "huge", "name": name, "size": len(boxes),
+                            "query": list(query) if query else None,
+                            "asked": [list(q) for q in asked[-8:]] if asked else None})
+    return part
+
+
 def _multiscale_chunk(collections):
     part = core.Part()
     for boxes in collections:
@@ -229,7 +272,7 @@ def _subset_chunk(masks):
 
 def _dispatch(job):
     return {"multi": _multiset_chunk, "subset": _subset_chunk,
-            "multiscale": _multiscale_chunk}[job[0]](job[1])
+            "multiscale": _multiscale_chunk, "huge": _huge_chunk}[job[0]](job[1])
 
 
 def run(ctx):
@@ -277,6 +320,8 @@ def run(ctx):
         jobs.append(("multiscale", chunk))
     for crowd in crowded_collections():
         jobs.append(("multiscale", [crowd]))
+    for huge in huge_collections(ctx.thorough):
+        jobs.insert(0, ("huge", [huge]))        # the long ones first
     part = core.fan_out(ctx, _dispatch, jobs)
     # the empty collection
     bad, _depth = check_collection([], q_small)
@@ -297,7 +342,7 @@ def run(ctx):
                 "queries; a seed-derived 3-coordinate alphabet; multisets of 1..2 boxes over tenths {0,.1,.2,.3} "
                 "and over {2^53, +2, +6, +8} and {+-1.1e308, +-1.6e308} x 100 queries, 1..3 boxes over {.7,.9,1}; all 4096 subsets of a 12-box "
                 "arrangement x 16 queries; collections of 20..96 (128) boxes on geometric scales "
-                "(tree depth up to max_tree_depth) and five crowded collections of 257..400 boxes that "
+                "(tree depth up to max_tree_depth) and two (thorough three) collections of 2400..3600 boxes in which a child node holds over 1300, probed at all four corners of each of those boxes; five crowded collections of 257..400 boxes that "
                 "fall into one quadrant, queried with every box, its centre and the "
                 "focus; the empty collection; non-trivial = collections whose "
                 "index actually has subtrees; distinct identifiers even for equal boxes",
@@ -313,6 +358,14 @@ def run(ctx):
 
 
 def replay(case):
+    if case.get("kind") == "huge":
+        boxes = [b for name, b, _n in huge_collections(True)
+                 if name == case["name"] and len(b) == case["size"]][0]
+        sequence = [tuple(q) for q in case["asked"]] if case.get("asked") else None
+        queries = [tuple(case["query"])] if case["query"] else []
+        bad, _d = check_collection(boxes, queries, sequence)
+        return [m.replace(repr(boxes), f"<{len(boxes)} boxes ({case['name']})>")[:700]
+                for _c, m, _q, _a in bad]
     boxes = [(i, tuple(b)) for i, b in case["boxes"]]
     queries = [tuple(case["query"])] if case["query"] else []
     sequence = [tuple(q) for q in case["asked"]] if case.get("asked") else None
